@@ -315,7 +315,20 @@ func runC15(w *h.W, batch int) {
 				w.Inconclusive("watchdog: phase did not finish")
 			} else if active {
 				if bad != "" {
-					w.Violation("C15:"+class, map[string]any{"diff": bad, "case": desc, "dir_listing": listDir(dir)})
+					// diagnostics: which fraction every acknowledged bulk was last seen in, and the fraction lists the processes reported
+					var table []string
+					for _, b := range bulks {
+						if b.acked {
+							table = append(table, fmt.Sprintf("%d:%s:%s", b.id, b.status, strings.TrimPrefix(b.frac, "seq-db-")))
+						}
+					}
+					var lists []string
+					for _, e := range evs {
+						if len(e.Fracs) > 0 || e.Ev == "ready" {
+							lists = append(lists, e.Ev+"="+strings.ReplaceAll(strings.Join(e.Fracs, ","), "seq-db-", ""))
+						}
+					}
+					w.Violation("C15:"+class, map[string]any{"diff": bad, "case": desc, "dir_listing": listDir(dir), "bulk_status_fraction": table, "fraction_lists": lists})
 					dead = true
 				} else {
 					if nt && w.WantSample() {
